@@ -664,6 +664,22 @@ pub mod rand_shim {
                     let st = &mut *st;
                     let p = &mut st.procs[ctx.proc];
                     p.rand_draws += 1;
+                    // Many draws without a filesystem call in between means the
+                    // library is rejection-sampling: a scripted constant (or an
+                    // exhausted replay tape) would make it spin forever, so the
+                    // source starts to vary deterministically.
+                    if p.last_draw_call == p.calls {
+                        p.draws_since_call += 1;
+                    } else {
+                        p.last_draw_call = p.calls;
+                        p.draws_since_call = 0;
+                    }
+                    if p.draws_since_call > 12 {
+                        let mut x = p.rand_draws.wrapping_mul(0x9e3779b97f4a7c15);
+                        x = (x ^ (x >> 30)).wrapping_mul(0xbf58476d1ce4e5b9);
+                        x = (x ^ (x >> 27)).wrapping_mul(0x94d049bb133111eb);
+                        return (x ^ (x >> 31)) | 1;
+                    }
                     let (script, default) = match self.source {
                         Source::Trigger => (&mut p.trigger_script, p.trigger_default),
                         Source::Shard | Source::Other => (&mut p.shard_script, p.shard_default),
